@@ -43,7 +43,8 @@ Check(e, l) ==
        \* a request value may be an invalid query, but then for the benign twin as well, or only for the payload
        (e.variant = "benign" /\ Trace[PageOf[e.twin]].status = 200 => Reject(l, "twin-status", [head |-> e.head]))
   ELSE IF ~Accepts(e.tmpl, e.toks) THEN Reject(l, "structure", [tmpl |-> e.tmpl, at |-> Furthest(e.tmpl, e.toks)])
-  ELSE IF \E i \in DOMAIN e.toks : e.toks[i].bad # 0
+  \* ("solo" requests match inside the planted values: the highlighting splits them, only the structure is judged)
+  ELSE IF e.kind # "solo" /\ \E i \in DOMAIN e.toks : e.toks[i].bad # 0
        THEN Reject(l, "not-verbatim", [tok |-> CHOOSE i \in DOMAIN e.toks : e.toks[i].bad # 0])
   ELSE IF \E i \in DOMAIN e.toks : \E j \in DOMAIN e.toks[i].url : BadURL(e.toks[i].url[j][2])
        THEN Reject(l, "url-scheme", [tok |-> CHOOSE i \in DOMAIN e.toks : \E j \in DOMAIN e.toks[i].url : BadURL(e.toks[i].url[j][2])])
